@@ -20,7 +20,7 @@ from `uᴴ u = 1` by ring identities, given that `conj` is an involutive ring ho
 -/
 set_option linter.unusedSectionVars false
 
-namespace Ptn.Ham
+namespace Ptn.Ham.Gauge
 open Ptn.Og Finset
 
 section laws
@@ -259,4 +259,4 @@ theorem quad_block (hc : ConjLaws α) (hu : Unitary2 u00 u01 u10 u11) :
   interval_cases p <;> interval_cases q <;> simp
 
 end blocks
-end Ptn.Ham
+end Ptn.Ham.Gauge
